@@ -4,6 +4,8 @@
   appserver/server.py    save_service_data  + util.py move_into_place         -> op order of the registry rewrite
   logging/gatherer.py    IncidentObserver._got_incident / update_latest       -> path construction (guard or not)
   logging/publish.py     LogPublisher.remote_get_incident                     -> name prefix test, path construction
+  logging/publish.py     LogPublisher.list_incident_names (+ its two consumers) -> selection, naming, is a symlinked entry skipped
+  logging/gatherer.py    IncidentObserver.connect                             -> is the state file `latest` read through a symlink
 
 Every statement of these functions is either recognised (and becomes a step / a fact), is known to be irrelevant
 (does not mention a file variable, `os`, `shutil`, `open`), or makes the generator fail closed.
@@ -650,6 +652,34 @@ def gen_gatherer(out):
                % ("true" if save_guarded else "false"))
     out.append("Definition gatherer_latest_guarded : bool := %s.  (* update_latest removes a pre-existing symlink before opening `latest` *)"
                % ("true" if latest_guarded else "false"))
+    # IncidentObserver.connect reads the same `latest` file back and sends its content to the publisher as since=:
+    #   v = self.basedir.child('latest').path ; .. ; try: [if not os.path.islink(v):] latest = open(v, 'r').read().strip()
+    #   except EnvironmentError: pass
+    # with the bracketed test a symbolic link there is not opened; without it (the form before the fix) it is read through.
+    cn = strip_doc(P.find_def(mod, "IncidentObserver.connect").body)
+    ct = [U(s) for s in cn]
+    m = re.fullmatch(r"(\w+) = self\.basedir\.child\('latest'\)\.path", ct[0]) if ct else None
+    trys = [s for s in cn if isinstance(s, ast.Try)]
+    if not m or len(trys) != 1:
+        raise P.Untranslatable("IncidentObserver.connect: state file / try block not recognised: %s" % ct[:4])
+    v = m.group(1)
+    t = trys[0]
+    READ = "latest = open(%s, 'r').read().strip()" % v
+    tb = [U(s) for s in t.body]
+    if tb == [READ]:
+        state_guarded = False
+    elif tb == ["if not os.path.islink(%s):\n    %s" % (v, READ)]:
+        state_guarded = True
+    else:
+        state_guarded = None
+    if state_guarded is None or t.orelse or t.finalbody or len(t.handlers) != 1 or t.handlers[0].type is None \
+            or U(t.handlers[0].type) not in ("EnvironmentError", "OSError", "IOError") or [U(x) for x in t.handlers[0].body] != ["pass"]:
+        raise P.Untranslatable("IncidentObserver.connect: the state file is read in an unrecognised way: %s" % U(t))
+    for s_, tx in zip(cn[1:], ct[1:]):
+        if s_ is not t and re.search(r"\b%s\b|\bopen\(|\bos\.|BZ2File\(" % re.escape(v), tx):
+            raise P.Untranslatable("IncidentObserver.connect: unrecognised file statement: " + tx)
+    out.append("Definition gatherer_state_read_guarded : bool := %s.  (* connect does not open `latest` for reading when it is a symbolic link *)"
+               % ("true" if state_guarded else "false"))
 
 
 def gen_publisher(out):
@@ -724,11 +754,31 @@ def gen_publisher(out):
     m = re.fullmatch(r"fn\.startswith\(('[^']*')\) and \(?not fn\.endswith\(('[^']*')\)\)?", U(sel.test))
     inner = [U(s) for s in sel.body]
     m2 = re.fullmatch(r"basename = six\.ensure_str\(self\.trim\(fn, (.+)\)\)", inner[0]) if inner else None
-    ok = (m and m2 and len(sel.body) == 2 and isinstance(sel.body[1], ast.If) and not sel.body[1].orelse
-          and U(sel.body[1].test) == "basename > since"
-          and [U(s) for s in sel.body[1].body] == ["fullname = six.ensure_str(os.path.join(basedir, fn))", "yield (basename, fullname)"])
+    # the reported pair: fullname = join(basedir, fn) ; [if os.path.islink(fullname): continue] ; yield (basename, fullname)
+    # with the bracketed statement a symbolic link in the log directory is never reported (hence never opened by
+    # get_incident_trigger); without it (the form before the fix) it is: listing_link_skipped = false.  Anything else fails closed.
+    rep = [U(s) for s in sel.body[1].body] if (len(sel.body) == 2 and isinstance(sel.body[1], ast.If)) else None
+    FULL, YLD = "fullname = six.ensure_str(os.path.join(basedir, fn))", "yield (basename, fullname)"
+    if rep == [FULL, YLD]:
+        link_skipped = False
+    elif rep == [FULL, "if os.path.islink(fullname):\n    continue", YLD]:
+        link_skipped = True
+    else:
+        link_skipped = None
+    ok = (m and m2 and link_skipped is not None and not sel.body[1].orelse and U(sel.body[1].test) == "basename > since")
     if not ok:
         raise P.Untranslatable("list_incident_names: selection / naming changed: %s" % U(sel))
+    if any(re.search(r"\bfullname\b|\bos\.(?!listdir\(basedir\))", t) for t in lt if not t.startswith("for fn in os.listdir(basedir)")):
+        raise P.Untranslatable("list_incident_names: unrecognised statement outside the loop: %s" % lt)
+    # the two consumers open exactly the file they are handed: remote_list_incidents, IncidentSubscription.catch_up
+    rli = [U(s) for s in strip_doc(P.find_def(mod, "LogPublisher.remote_list_incidents").body)]
+    if not any(re.fullmatch(r"for \(?name, ?fn\)? in self\.list_incident_names\(since\):\n    trigger = self\.get_incident_trigger\(fn\)(\n.*)*", t) for t in rli) \
+            or any(re.search(r"\bopen\(|\bos\.", t) for t in rli):
+        raise P.Untranslatable("remote_list_incidents no longer reads each reported file through get_incident_trigger: %s" % rli)
+    cu = [U(s) for s in strip_doc(P.find_def(mod, "IncidentSubscription.catch_up").body)]
+    if cu[:1] != ["new = dict(self.publisher.list_incident_names(since))"] or "trigger = self.publisher.get_incident_trigger(fn)" not in "\n".join(cu) \
+            or any(re.search(r"\bopen\(|\bos\.", t) for t in cu):
+        raise P.Untranslatable("IncidentSubscription.catch_up no longer reads the reported files through get_incident_trigger: %s" % cu)
     trims = list(ast.literal_eval("(" + m2.group(1) + ",)"))
     tr = [U(s) for s in strip_doc(P.find_def(mod, "LogPublisher.trim").body)]
     if tr != ["for suffix in suffixes:\n    if s.endswith(suffix):\n        s = s[:-len(suffix)]", "return s"] or not all(isinstance(x, str) and x for x in trims):
@@ -740,6 +790,8 @@ def gen_publisher(out):
     out.append("Definition listing_prefix : list N := %s.  (* %r *)" % (blist(ast.literal_eval(m.group(1))), ast.literal_eval(m.group(1))))
     out.append("Definition listing_skip_suffix : list N := %s.  (* %r *)" % (blist(ast.literal_eval(m.group(2))), ast.literal_eval(m.group(2))))
     out.append("Definition listing_trim : list (list N) := [%s].  (* %r *)" % ("; ".join(blist(x) for x in trims), trims))
+    out.append("Definition listing_link_skipped : bool := %s.  (* list_incident_names skips (does not report) an entry that is a symbolic link *)"
+               % ("true" if link_skipped else "false"))
 
 
 def generate():
